@@ -54,7 +54,9 @@ PROPS = {
         ],
     },
     "C01": {
-        "explanation": "CODECPAIR: for every framing id the encoder and decoder switches return two halves of one codec: both present, both regular or both "
+        "explanation": "UNDOSET: the block of the encoder that takes a step back (when a full block ends at the buffer end) reverts every counter the step changed. "
+                       "STEPPAIR: in mpt_array_push the data pointer and the remaining length move by the same amount. RESUMESAVE: resumable coders save the same state set on every "
+                       "suspension exit. CODECPAIR: for every framing id the encoder and decoder switches return two halves of one codec: both present, both regular or both "
                        "tail-inline wrappers of a registered regular pair; the encoder's block limit (`++code == E`) and zero-pair parameters (offset, code range) "
                        "are checked against the decoder's code->(data bytes, zero bytes) table, obtained by abstractly evaluating the decoder's two length "
                        "formulas for every code 1..255; every named framing is handled; the python client's block limit equals the C one and each branch "
@@ -67,6 +69,7 @@ PROPS = {
                       "every code value the encoder can emit (255 codes x 2 regular codecs evaluated). Not the byte-level round trip.",
         "level_note": "trusts clang constant folding of the macro-expanded formulas; pattern anchors: `++code == E`, conditional `c + K`, `_ctx & 0xff`",
         "rules": [
+            {"run": rules_path.run_undoset, "floor": 2, "use_anchor_files": True},
             {"run": rules_path.run_steppair, "floor": 1, "use_anchor_files": True},
             {"run": rules_codec.run, "floor": 20},
             {"run": rules_path.run_resumesave, "floor": 2, "use_anchor_files": True},
@@ -87,6 +90,7 @@ PROPS = {
                       "getter reads, with the registered type and width' and 'a refused value leaves the object unchanged' for all paths of the setters.",
         "level_note": "direct stores and mem* writes into the object are effects; writes made by callees that receive &obj->field are attributed to the callee's own result (not counted)",
         "rules": [
+            {"run": rules_layout.run_flagpath, "floor": 1},
             {"run": rules_layout.run_proptable, "floor": 100},
             {"run": rules_layout.run_convdest, "floor": 60, "scope": "anchors"},
             {"run": rules_effect.run_layout, "floor": 5},
@@ -128,6 +132,7 @@ PROPS = {
         "level_text": "Four structural necessary conditions of 'each request answered at most once, to the right requester', each enumerated over all functions of the anchor files.",
         "level_note": "consumer types are inferred from every convert(x, K, &p) call in the program; first-member embedding counts as the same interface",
         "rules": [
+            {"run": rules_reply.run_flexcopy, "floor": 1, "use_anchor_files": True},
             {"run": rules_reply.run_outparam_callee, "floor": 1, "use_anchor_files": True},
             {"run": rules_reply.run_idwidth, "floor": 8},
             {"run": rules_reply.run_idfit, "floor": 23},
@@ -146,6 +151,7 @@ PROPS = {
         "level_text": "Decides that the fragment cursor never leaves the fragment list and every loop terminates on its own exit test, for all 10 message files; not the value equivalence.",
         "level_note": "companion count inferred from struct message fields (cont/clen), locals loaded from them, or the integer parameter following an iovec parameter",
         "rules": [
+            {"run": rules_path.run_arraybound, "floor": 2, "use_anchor_files": True},
             {"run": rules_path.run_steppair, "floor": 1, "use_anchor_files": True},
             {"run": rules_path.run_cursor, "floor": 6, "use_anchor_files": True},
             {"run": rules_path.run_decwrap, "floor": 1, "use_anchor_files": True},
@@ -228,6 +234,7 @@ PROPS = {
                       "object kind tears down only at zero (8 kinds); replacement sites release the old referent.",
         "level_note": "vtable slots are resolved from static initialisers; counted kinds are those whose addref implementation calls the raise primitive",
         "rules": [
+            {"run": rules_ref.run_reforder, "floor": 1, "use_anchor_files": True},
             {"run": rules_ref.run_refwrite, "floor": 10},
             {"run": rules_ref.run_refshape, "floor": 6},
             {"run": rules_ref.run_unrefimpl, "floor": 6},
@@ -247,6 +254,7 @@ PROPS = {
         "level_text": "Decides the storage discipline of the inline/external overlay for all functions touching identifier._val/_base (23 reads/writes) on every path.",
         "level_note": "identity comparisons of _base (address-type identifiers in mpt_node_locate) are not content reads",
         "rules": [
+            {"run": rules_ident.run_inlinefit, "floor": 5},
             {"run": rules_ident.run_identoverlay, "floor": 15},
             {"run": rules_ident.run_narrow, "floor": 3, "use_anchor_files": True, "ctx": {"records": ["mpt_identifier", "identifier"]}},
             {"run": rules_path.run_allocpolarity, "floor": 1, "use_anchor_files": True},
